@@ -75,6 +75,9 @@ type explorer struct {
 	outcomes  map[string]int
 	newShared map[string]bool
 	steps     int64
+	maxTrace  int
+	seen      map[uint64]int
+	pruned    int64
 }
 
 func (x *explorer) run(prefix []int) *Run {
@@ -104,6 +107,14 @@ func (x *explorer) run(prefix []int) *Run {
 	r.Choices = choices
 	x.execs++
 	x.steps += int64(len(e.Trace))
+	if os.Getenv("VERIF_SCHED_STATS") != "" && len(e.Trace) > x.maxTrace {
+		x.maxTrace = len(e.Trace)
+		h := map[string]int{}
+		for _, p := range e.Trace {
+			h[fmt.Sprintf("%s/%dopts", p.What, len(p.Options))]++
+		}
+		fmt.Fprintf(os.Stderr, "SCHED-STATS longest trace so far in %s: %d points %v capHit=%v deadlock=%q prefix=%v\n", x.sc.Name, len(e.Trace), h, e.CapHit, e.Deadlock, prefix)
+	}
 	for l := range e.SharedOut {
 		if x.shared != nil && !x.shared[l] {
 			x.newShared[l] = true
@@ -208,7 +219,24 @@ func (x *explorer) explore(prefix []int, bound int, root bool, mine func(int) bo
 	}
 	tr := r.Exec.Trace
 	n := 0
+	// happens-before state caching: a state (partial order of visible operations
+	// so far) already being expanded with at least this much budget left is not
+	// expanded again.  All points of this execution are registered up front (this
+	// invocation WILL expand them), so descendants prune against them too.
+	fresh := make([]bool, len(tr))
 	for i := len(prefix); i < len(tr); i++ {
+		rem := bound - costBefore(tr, i)
+		if old, ok := x.seen[tr[i].Key]; ok && old >= rem {
+			x.pruned++
+			continue
+		}
+		x.seen[tr[i].Key] = rem
+		fresh[i] = true
+	}
+	for i := len(prefix); i < len(tr); i++ {
+		if !fresh[i] {
+			continue
+		}
 		base := costBefore(tr, i)
 		for alt := 1; alt < len(tr[i].Options); alt++ {
 			if base+tr[i].Options[alt].Cost > bound {
@@ -233,38 +261,7 @@ func (w *Worker) Explore(sc *SchedScenario) { w.exploreImpl(sc, true) }
 func (w *Worker) ExploreWhole(sc *SchedScenario) { w.exploreImpl(sc, false) }
 
 func (w *Worker) exploreImpl(sc *SchedScenario, shardRoot bool) {
-	x := &explorer{w: w, sc: sc, shared: map[string]bool{}, outcomes: map[string]int{}, newShared: map[string]bool{}}
-	// ---- learning: which sync objects are touched by more than one thread?
-	for round := 0; round < 8; round++ {
-		x.newShared = map[string]bool{}
-		lb := 1
-		if sc.Bound < 1 {
-			lb = sc.Bound
-		}
-		saveExecs := x.execs
-		x.explore(nil, lb, true, nil)
-		_ = saveExecs
-		if len(x.newShared) == 0 {
-			break
-		}
-		for l := range x.newShared {
-			x.shared[l] = true
-		}
-	}
-	learnExecs := x.execs
-	if os.Getenv("VERIF_SCHED_STATS") != "" {
-		r := x.run(nil)
-		h := map[string]int{}
-		for _, p := range r.Exec.Trace {
-			h[p.What]++
-		}
-		fmt.Fprintf(os.Stderr, "SCHED-STATS %s: %d branching points in the default schedule: %v; shared labels %d\n", sc.Name, len(r.Exec.Trace), h, len(x.shared))
-	}
-	// ---- exploration proper
-	x.newShared = map[string]bool{}
-	x.outcomes = map[string]int{}
-	x.capped = false
-	x.execs = 0
+	x := &explorer{w: w, sc: sc, shared: map[string]bool{}, outcomes: map[string]int{}, newShared: map[string]bool{}, seen: map[uint64]int{}}
 	mine := func(n int) bool {
 		if !shardRoot {
 			return true
@@ -274,18 +271,62 @@ func (w *Worker) exploreImpl(sc *SchedScenario, shardRoot bool) {
 		}
 		return w.Mine(n)
 	}
-	x.explore(nil, sc.Bound, true, mine)
+	var learnExecs int64
+	if shardRoot {
+		// root-sharded: every worker must agree on the shared-object set, so it is
+		// learnt first, unsharded, with at most one deviation, to a fixpoint
+		for round := 0; round < 8; round++ {
+			x.newShared = map[string]bool{}
+			x.seen = map[uint64]int{}
+			lb := 1
+			if sc.Bound < 1 {
+				lb = sc.Bound
+			}
+			x.explore(nil, lb, true, nil)
+			if len(x.newShared) == 0 {
+				break
+			}
+			for l := range x.newShared {
+				x.shared[l] = true
+			}
+		}
+		learnExecs = x.execs
+	}
+	// ---- exploration proper; scenario-sharded runs iterate the shared-object
+	// set to a fixpoint here (objects that turn out to be shared on some schedule
+	// become branching points in the next round; violations of earlier rounds stand)
+	rounds := 0
+	for {
+		rounds++
+		x.newShared = map[string]bool{}
+		x.outcomes = map[string]int{}
+		x.capped = false
+		x.execs = 0
+		x.steps = 0
+		x.seen = map[uint64]int{}
+		x.pruned = 0
+		x.explore(nil, sc.Bound, true, mine)
+		if shardRoot || len(x.newShared) == 0 || x.capped || rounds >= 6 {
+			break
+		}
+		learnExecs += x.execs
+		for l := range x.newShared {
+			x.shared[l] = true
+		}
+	}
 	w.Eval(x.execs)
 	w.AddTraces(x.execs)
 	w.AddTrans(x.steps)
 	w.AddStates(int64(len(x.outcomes)))
 	w.Count("schedules:"+sc.Name, x.execs)
 	w.Count("learning_executions", learnExecs)
+	w.Count("hb_states_pruned", x.pruned)
+	w.Count("hb_states_expanded", int64(len(x.seen)))
 	w.Count("shared_objects:"+sc.Name, int64(len(x.shared)))
 	for o := range x.outcomes {
 		w.Nontrivial(sc.Name + "|" + o)
 	}
-	if len(x.newShared) > 0 {
+	if len(x.newShared) > 0 && !x.capped {
 		w.Count("late_shared_labels", int64(len(x.newShared)))
 		w.Cap(fmt.Sprintf("scenario %s: %d sync objects became shared only on deeper schedules; accesses to them before that were not branching points", sc.Name, len(x.newShared)))
 	}
@@ -307,7 +348,7 @@ func (w *Worker) ReplaySched(raw json.RawMessage, scs []*SchedScenario) {
 		if sc.Name != rp.Scenario {
 			continue
 		}
-		x := &explorer{w: w, sc: sc, shared: map[string]bool{}, outcomes: map[string]int{}, newShared: map[string]bool{}}
+		x := &explorer{w: w, sc: sc, shared: map[string]bool{}, outcomes: map[string]int{}, newShared: map[string]bool{}, seen: map[uint64]int{}}
 		for _, l := range rp.Shared {
 			x.shared[l] = true
 		}
